@@ -297,12 +297,20 @@ PROPS["C07"] = {
     "level": "model_checking",
     "technique": "exhaustive enumeration of complete byte-string spaces given to the real decoders in the tiny build (every string of length 0..2/3 for integers, every 2-byte string per prime, every 1- and 3-byte string and structured 5-byte strings per tiny curve, every short text x every radix), tag x length x coordinate alphabets at shipped sizes, against a reference validity predicate and canonical encoder written from the format definition",
     "level_text": "Complete input spaces: the decoder under test sees every byte string of the relevant lengths on tiny instances (2^24 compressed-point strings per curve, 65 536 field strings per prime, every integer string up to 2-3 bytes, every text of length <= 2-3 over a 67-symbol alphabet in every radix 2..64) and must accept exactly the strings the reference predicate calls valid, produce the reference object, and re-encode to the same bytes; every value |a| < 2^12/2^16 in every radix for the text form; encoders are checked for advertised size, guard bytes, short buffers. At 256 bits: every tag byte x 14 lengths x coordinate alphabets (0, 1, p-1, p, p+1, 2^256-1, generator coordinates, wrong roots) on the six curves.",
-    "level_note": "Trusted: the reference predicate (length/tag dispatch, coordinate < p, curve equation, parity convention per observation O1: Montgomery-representation parity for ordinary curves, half-range for pairing-friendly ones). bn_read_str is judged by its documented behaviour of parsing the longest valid prefix. Part 2 (binary fields/curves, extension fields and curves, Edwards, target group) lives in the C16/C10/C11/C17 harnesses where those codecs are exercised on their own structures.",
+    "level_note": "Trusted: the reference predicate (length/tag dispatch, coordinate < p, curve equation, parity convention per observation O1: Montgomery-representation parity for ordinary curves, half-range for pairing-friendly ones). bn_read_str is judged by its documented behaviour of parsing the longest valid prefix. Part 2 (binary fields/curves, extension fields and curves, Edwards, target group) lives in the C16/C10/C11/C17 harnesses where those codecs are exercised on their own structures. Group-element encodings of the pairing groups (C04_fam.c bounds c07-; quick at 256 bits, thorough also at 315, 330, 381, 446, 544, 575, 638 bits): g1 / g2 / gt write-read round trips for 12 elements incl. the identity, compressed and plain, exact sizes (guard bytes), one byte truncated / appended refused, every tag-bit flip never yields an off-curve point (finding L44: the compressed unity of GT).",
     "rule": "cases are (codec, length, bytes) or (codec, value, radix) by odometer over complete byte/character spaces; all counted non-trivial; distinct by 64-bit hash; states = distinct byte strings of the complete spaces; transitions = decoder/encoder calls judged.",
     "assumptions": ["reference validity predicate written from the format", "calls inside RLC_TRY"],
     "jobs": [
         {"name": "codec-w8", "world": "W8", "src": "props/C07_codec.c", "share": 0.7},
         {"name": "codec-w64", "world": "W64", "src": "props/C07_codec.c"},
+        {"name": "fam-cod-w64", "world": "W64", "src": "props/C04_fam.c", "args": ["--only", "c07-"]},
+        {"name": "fam-cod-w64-315", "world": "W64-315", "src": "props/C04_fam.c", "tiers": ("thorough",), "args": ["--only", "c07-"]},
+        {"name": "fam-cod-w64-330", "world": "W64-330", "src": "props/C04_fam.c", "tiers": ("thorough",), "args": ["--only", "c07-"]},
+        {"name": "fam-cod-w64-638", "world": "W64-638", "src": "props/C04_fam.c", "tiers": ("thorough",), "args": ["--only", "c07-"]},
+        {"name": "fam-cod-w64-575q", "world": "W64-575q", "src": "props/C04_fam.c", "tiers": ("thorough",), "args": ["--only", "c07-"]},
+        {"name": "fam-cod-w64-544", "world": "W64-544", "src": "props/C04_fam.c", "tiers": ("thorough",), "args": ["--only", "c07-"]},
+        {"name": "fam-cod-w64-446", "world": "W64-446", "src": "props/C04_fam.c", "tiers": ("thorough",), "args": ["--only", "c07-"]},
+        {"name": "fam-cod-w64-381", "world": "W64-381", "src": "props/C04_fam.c", "tiers": ("thorough",), "args": ["--only", "c07-"]},
     ],
 }
 
